@@ -9,7 +9,10 @@ SPEC = {
              "lists whose names overlap / do not overlap the entries' headers (incl. Host) x ssl on/off x disable-keep-alives x 1-4 "
              "instances x 1-2 passes x target answers {2 bytes, empty, 5 kB, 100 kB, chunked/streamed small and 12 kB}; header values may be "
              "empty (the ammo then defines the header with nothing in it); gun kinds: http, connect (plain target only), and - one ssl case "
-             "in three - http2 against a TLS target that negotiates h2, keep-alives then disabled in every second case; the pool (gun, provider, "
+             "in three - http2 against a TLS target that negotiates h2, keep-alives then disabled in every second case; for the http and "
+             "http2 guns one case in three writes the target as a DNS name (`localhost:<port>`, the docs' `target: [hostname]:443`) instead "
+             "of the listener's IP literal, a quarter of those with dial.dns-cache: false (by default the gun factory resolves the name "
+             "once per pool): the Host of an entry without one must then be that name, not the address it resolves to; the pool (gun, provider, "
              "discard aggregator, once profiles) is built from a config map by "
              "config.DecodeAndValidate and run by the real engine against in-process recording HTTP, HTTPS and h2 servers; connections are "
              "counted at the target (distinct connections that carried a request, and the accept / TLS-handshake counter). Non-trivial = "
@@ -19,18 +22,25 @@ SPEC = {
                "TestWire/host_from_ammo": 0.2, "TestWire/instances_ge_2": 0.4,
                "TestWire/keep_alive_with_multi_read_answer": 0.16,
                "TestWire/http2_gun": 0.077, "TestWire/http2_keep_alive_off_ge_2_requests": 0.031,
-               "TestWire/http2_keep_alive_more_requests_than_instances": 0.02, "TestWire/connect_gun": 0.05, "TestWire/http_gun": 0.4},
+               "TestWire/http2_keep_alive_more_requests_than_instances": 0.02, "TestWire/connect_gun": 0.05, "TestWire/http_gun": 0.4,
+               "TestWire/target_by_name": 0.17, "TestWire/target_by_name_host_defaulted": 0.1,
+               "TestWire/target_by_name_host_defaulted_ssl": 0.055, "TestWire/target_by_name_host_defaulted_http2": 0.018,
+               "TestWire/target_by_name_dns_cache_off": 0.04, "TestWire/target_ip_literal_host_defaulted": 0.25},
     "manifest": {
         "technique": "model-based property testing (rapid): generated ammo + gun config run through the real engine against a recording target; multiset/sequence comparison with the model",
         "text": ("The multiset of requests the target received must equal the model: method, request URI, body, every ammo header, a "
-                 "configured header only where the entry lacks that name, Host from the ammo else the target's host, TLS iff ssl, extra "
+                 "configured header only where the entry lacks that name, Host from the ammo else the target's host as the config names it "
+                 "(IP literal or DNS name, never the address a name resolved to), TLS iff ssl, extra "
                  "headers only from the set Go's transport adds; with one instance the sequence equals file order; connections <= "
                  "instances with keep-alive, one per request without - for the http, connect and http2 guns alike, judged both by the "
                  "connections the requests arrived on and by the number of connections the target accepted; an http2 gun's "
                  "requests arrive as HTTP/2.0."),
         "note": ("Servers are Go httptest servers (HTTP/1.1, optional TLS; TLS + h2 for the http2 gun); configured header names are unique; entries carry no "
                  "Connection header; the server never closes idle connections during a case. Over HTTP/2 a Cookie header with an "
-                 "empty value may be absent (the protocol sends one field per cookie pair)."),
+                 "empty value may be absent (the protocol sends one field per cookie pair). With a target given by name and "
+                 "dial.dns-cache on, the one connection the pool opens and closes without a request to resolve the name "
+                 "(netutil.LookupReachable) is not counted as an instance's connection. The connect gun (undocumented) is only "
+                 "run with IP-literal targets: it dials, and names in CONNECT and Host, the pre-resolved address by construction."),
     },
     "assumptions": ["Host without port and host:port are both accepted as 'the target's host'"],
 }
